@@ -21,6 +21,11 @@ func envInt(k string, def int) int {
 
 // TestSim is the entry point used by /verif/check: one worker process = one slice of run indices
 func TestSim(t *testing.T) {
+	defer func() {
+		if aTmpDir != "" {
+			_ = os.RemoveAll(aTmpDir)
+		}
+	}()
 	if rp := os.Getenv("VERIF_REPLAY"); rp != "" {
 		ok, detail := ReplayFile(t, rp)
 		fmt.Printf("REPLAY reproduced=%v\n%s", ok, detail)
